@@ -4,6 +4,7 @@
 From Coq Require Import List String Ascii ZArith NArith Bool.
 Import ListNotations.
 From Onet Require Export Base.Corr Api.Rest Api.RestConc Api.Par Api.Spec.
+From Onet Require Api.StreamStop.
 
 (* Which variant of the model describes /repo as it is now.  The integrator flips a
    definition to [true] when the corresponding fix commit lands. *)
@@ -65,7 +66,10 @@ Inductive case :=
        (streams : list (list sconv)) (sobss : list (list sobs))
     (* the same, and per round the streaming conversations that ran concurrently with it *)
 | CPar (nodes : list nbehav) (keep : bool) (steps : list pstep) (obs : list pstep_obs)
-| CStore (keeps : list bool) (ops : list sop) (obs : list reply).
+| CStore (keeps : list bool) (ops : list sop) (obs : list reply)
+| CShare (nreq : nat) (keeps : list bool) (ops : list sop) (obs : list reply).
+    (* a client sent nreq requests on one stream whose handler gave all of them ONE stop
+       channel, then went away (several times over); afterwards other clients send ops *)
     (* Put / Get on the storing endpoints, one after the other; keeps: per client, does it
        keep its connection *)
 
@@ -395,12 +399,30 @@ Definition check_pstep (bs : list nbehav) (st : pstep) (ob : pstep_obs) : list n
 
 (* ---- all kinds of case ------------------------------------------------------------------ *)
 
+(* the stoppers of nreq requests sharing stop channel 0 (Api/StreamStop.v), run under the
+   schedule "all enter, all test, all close" and under the sequential one: does the server
+   crash on a second close? With the mutex neither does (StreamStopProofs.stop_closed_once). *)
+Definition code_stopper_mutex := true.
+Definition share_scheds (n : nat) : list (list StreamStop.saction) :=
+  [ (map StreamStop.SLock (seq 0 n) ++ map StreamStop.STest (seq 0 n) ++ map StreamStop.SClose (seq 0 n))%list;
+    List.concat (map (fun k => [StreamStop.SLock k; StreamStop.STest k; StreamStop.SClose k]) (seq 0 n)) ].
+Fixpoint srun_upto (mutex : bool) (s : StreamStop.sst) (acts : list StreamStop.saction) : StreamStop.sst :=
+  match acts with
+  | [] => s
+  | a :: r => match StreamStop.sstep1 mutex s a with None => srun_upto mutex s r | Some s' => srun_upto mutex s' r end
+  end.
+Definition share_crashes (mutex : bool) (n : nat) : bool :=
+  existsb (fun acts => StreamStop.scrash (srun_upto mutex (StreamStop.sinit1 (repeat 0 n)) acts)) (share_scheds n).
+Definition share_model (mutex : bool) (n : nat) (keeps : list bool) (ops : list sop) : list reply :=
+  if share_crashes mutex n then map (fun _ => RErr ETransport ""%string) ops else store_run false keeps [] ops.
+
 Definition agree (c : case) : bool :=
   match c with
   | Case clients rounds obs => agree_rounds clients rounds obs
   | CMix clients rounds obs ss sos => agree_rounds clients rounds obs && agree_streams ss sos
   | CPar bs keep steps obs => forallb (fun x => x) (zip_with (agree_pstep bs) false steps obs)
   | CStore keeps ops obs => list_eqb agree_reply (store_run false keeps [] ops) obs
+  | CShare n keeps ops obs => list_eqb agree_reply (share_model code_stopper_mutex n keeps ops) obs
   end.
 
 Definition mismatches (l : list case) : list nat := mism_idx agree l.
@@ -419,6 +441,12 @@ Definition check (c : case) : list nat :=
       dedup (List.concat (zip_with (fun s o => if reply_eqb s o then []
                                                else if not_answered o then [4] else [12])
                                    [1] (store_spec [] ops) obs))
+  | CShare n keeps ops obs =>
+      (* clause 4: with the mutex the stoppers never crash the server, so the later
+         requests of other clients are answered as if the stream had not been there *)
+      dedup (List.concat (zip_with (fun s o => if reply_eqb s o then []
+                                               else if not_answered o then [4] else [12])
+                                   [1] (if share_crashes true n then [] else store_spec [] ops) obs))
   end.
 
 Definition violations (l : list case) : list (nat * nat) := viols check l.
